@@ -133,6 +133,13 @@ impl Group for Secp256K1Group {
         let encoded_point =
             k256::Sec1Point::from_bytes(buf).map_err(|_| GroupError::MalformedElement)?;
 
+        // Only the compressed form (tag 0x02 or 0x03) is a valid encoding; in particular
+        // reject the 33-byte SEC1 "compact" form (tag 0x05), which would decode to a
+        // point that re-encodes differently.
+        if !encoded_point.is_compressed() {
+            return Err(GroupError::MalformedElement);
+        }
+
         match Option::<AffinePoint>::from(AffinePoint::from_sec1_point(&encoded_point)) {
             Some(point) => {
                 if point.is_identity().into() {
